@@ -294,3 +294,42 @@ Proof.
   - b2p. lra.
   - apply andb_false_iff in Ec. b2p. revert H H0. dabs; intros; destruct Ec; b2p; lra.
 Qed.
+
+(* ------------------------------------------------------------------ rect_polygon_agree (unrotated rectangle) *)
+(* the even-odd rule on RectangularROI.to_polygon()'s five vertices is the rectangle test, off the four edge lines *)
+Ltac decide_cmp :=
+  repeat match goal with
+  | |- context [Qltb ?a ?b] =>
+    first [ let H := fresh in assert (H : Qltb a b = true) by (apply Qltb_lt; nra); rewrite H; clear H
+          | let H := fresh in assert (H : Qltb a b = false) by (apply Qltb_ge; nra); rewrite H; clear H ]
+  | |- context [Qleb ?a ?b] =>
+    first [ let H := fresh in assert (H : Qleb a b = true) by (apply Qleb_le; nra); rewrite H; clear H
+          | let H := fresh in assert (H : Qleb a b = false) by (apply Qleb_gt; nra); rewrite H; clear H ]
+  end.
+
+Theorem rect_polygon_agree_axis x0 x1 y0 y1 c s p : x0 < x1 -> y0 < y1 ->
+  ~ fst p == x0 -> ~ fst p == x1 -> ~ snd p == y0 -> ~ snd p == y1 ->
+  poly_contains (rect_to_polygon x0 x1 y0 y1 B0 c s) p = rect_contains x0 x1 y0 y1 B0 c s p.
+Proof.
+  intros Hx Hy N1 N2 N3 N4. destruct p as [px py]. cbn [fst snd] in *.
+  unfold poly_contains, rect_to_polygon, rect_contains. cbv zeta.
+  assert (E1 : Qred (qmin_list 0 (map fst [(x0, y0); (x1, y0); (x1, y1); (x0, y1); (x0, y0)])) == x0).
+  { rewrite Qred_correct. cbn [map fst qmin_list]. dabs; lra. }
+  assert (E2 : Qred (qmax_list 0 (map fst [(x0, y0); (x1, y0); (x1, y1); (x0, y1); (x0, y0)])) == x1).
+  { rewrite Qred_correct. cbn [map fst qmax_list]. dabs; lra. }
+  assert (E3 : Qred (qmin_list 0 (map snd [(x0, y0); (x1, y0); (x1, y1); (x0, y1); (x0, y0)])) == y0).
+  { rewrite Qred_correct. cbn [map snd qmin_list]. dabs; lra. }
+  assert (E4 : Qred (qmax_list 0 (map snd [(x0, y0); (x1, y0); (x1, y1); (x0, y1); (x0, y0)])) == y1).
+  { rewrite Qred_correct. cbn [map snd qmax_list]. dabs; lra. }
+  unfold bbox_keep. cbv zeta. cbn [fst snd].
+  rewrite (Qleb_comp _ _ E1 _ _ (Qeq_refl px)), (Qleb_comp _ _ (Qeq_refl px) _ _ E2),
+          (Qleb_comp _ _ E3 _ _ (Qeq_refl py)), (Qleb_comp _ _ (Qeq_refl py) _ _ E4).
+  unfold crossing_odd, edges. cbn [edges_open last app map fst snd parity]. unfold edge_cross. cbn [fst snd].
+  assert (Px : px < x0 \/ (x0 < px /\ px < x1) \/ x1 < px).
+  { destruct (Qlt_le_dec px x0); [left; assumption|]. destruct (Qlt_le_dec x1 px); [right; right; assumption|].
+    right; left. split; [destruct (Qeq_dec px x0); [contradiction|lra]|destruct (Qeq_dec px x1); [contradiction|lra]]. }
+  assert (Py : py < y0 \/ (y0 < py /\ py < y1) \/ y1 < py).
+  { destruct (Qlt_le_dec py y0); [left; assumption|]. destruct (Qlt_le_dec y1 py); [right; right; assumption|].
+    right; left. split; [destruct (Qeq_dec py y0); [contradiction|lra]|destruct (Qeq_dec py y1); [contradiction|lra]]. }
+  destruct Px as [Px|[[Px Px']|Px]], Py as [Py|[[Py Py']|Py]]; decide_cmp; reflexivity.
+Qed.
